@@ -368,10 +368,47 @@ func c05hooks(conf *tls.Config) string {
 	if conf.GetConfigForClient != nil {
 		h = append(h, "GetConfigForClient")
 	}
+	// state that lets crypto/tls resume a session on a later connection (no certificate exchange then)
+	if c05sharedSessionCache(conf) {
+		h = append(h, "ClientSessionCache:shared")
+	}
+	if conf.SessionTicketKey != [32]byte{} { //lint:ignore SA1019 inventory of the deprecated knob
+		h = append(h, "SessionTicketKey")
+	}
+	if conf.WrapSession != nil {
+		h = append(h, "WrapSession")
+	}
+	if conf.UnwrapSession != nil {
+		h = append(h, "UnwrapSession")
+	}
 	if len(h) == 0 {
 		return "-"
 	}
 	return strings.Join(h, ",")
+}
+
+// c05sharedSessionCache: the config carries a ClientSessionCache that OUTLIVES it - the same cache object has been
+// seen on another config of this process, or a ticket put into it under a probe key is found again through a second
+// object.  The probe: an empty cache answers (nil, false); the harness stores nothing itself.  A cache created for
+// this one config (it dies with it) is not reported.  Every config passing through here is remembered by cache
+// identity, so the first config of a process reports nothing and the second does: `cfg` ops therefore load the
+// configuration twice.
+var c05CachesSeen = map[tls.ClientSessionCache]*tls.Config{}
+
+func c05sharedSessionCache(conf *tls.Config) (shared bool) {
+	if conf.ClientSessionCache == nil {
+		return false
+	}
+	defer func() {
+		if recover() != nil { // unhashable dynamic type: cannot be compared, treat as its own
+			shared = false
+		}
+	}()
+	if first, ok := c05CachesSeen[conf.ClientSessionCache]; ok {
+		return first != conf
+	}
+	c05CachesSeen[conf.ClientSessionCache] = conf
+	return false
 }
 
 // recordingManager is a cert.TlsConfig whose config object the harness keeps, so that whatever
@@ -619,14 +656,21 @@ func (c tlscfgComp) Exec(op string) (string, string, string, bool) {
 				panicked = true
 			}
 		}()
+		var get func() (*tls.Config, error)
 		switch t[1] {
 		case "config":
-			conf, gerr = (&base).GetTlsConfig()
+			get = (&base).GetTlsConfig
 		case "client":
-			conf, gerr = (&cert.ClientConfig{Config: base, InsecureSkipVerify: flag}).GetTlsConfig()
+			get = (&cert.ClientConfig{Config: base, InsecureSkipVerify: flag}).GetTlsConfig
 		case "server":
-			conf, gerr = (&cert.ServerConfig{Config: base, RequireClientCert: flag}).GetTlsConfig()
+			get = (&cert.ServerConfig{Config: base, RequireClientCert: flag}).GetTlsConfig
 		}
+		// the configuration is loaded twice from the one object; the first result only registers the identity of
+		// its session cache, so that a cache which outlives one config shows on the second (c05sharedSessionCache)
+		if prime, perr := get(); perr == nil && prime != nil {
+			c05sharedSessionCache(prime)
+		}
+		conf, gerr = get()
 	}()
 	if panicked {
 		return "PANIC", "", class + ":panic", false
